@@ -48,15 +48,15 @@ Proof.
 Qed.
 
 (* ================= grouping ================= *)
-Lemma find_coll_path m x k : find_coll m x = Some k -> k_path k = x.
+Lemma find_coll_key m x k : find_coll m x = Some k -> k_key k = x.
 Proof.
   induction m as [|k0 t IH]; simpl; [discriminate|].
-  destruct (path_eqb (k_path k0) x) eqn:E; [|exact IH].
-  intros H. injection H as <-. now apply path_eqb_eq.
+  destruct (seqb (k_key k0) x) eqn:E; [|exact IH].
+  intros H. injection H as <-. now apply seqb_eq.
 Qed.
 
 Definition ext (k k' : coll) : Prop :=
-  k_path k' = k_path k /\ k_pkg k' = k_pkg k /\ k_pkgname k' = k_pkgname k /\
+  k_key k' = k_key k /\ k_path k' = k_path k /\ k_pkg k' = k_pkg k /\ k_pkgname k' = k_pkgname k /\
   k_template k' = k_template k /\ incl (k_reqs k) (k_reqs k').
 Lemma ext_refl k : ext k k.
 Proof. repeat split; auto. apply incl_refl. Qed.
@@ -66,26 +66,26 @@ Lemma add_req_old m p q m' :
   forall x k, find_coll m x = Some k -> exists k', find_coll m' x = Some k' /\ ext k k'.
 Proof.
   revert m'; induction m as [|k0 t IH]; intros m' H x k Hf; simpl in *; [discriminate|].
-  destruct (path_eqb (k_path k0) (q_path q)) eqn:E.
+  destruct (seqb (k_key k0) (q_key q)) eqn:E.
   - destruct (same_group k0 p q); [|discriminate]. injection H as <-. simpl.
-    destruct (path_eqb (k_path k0) x) eqn:E2.
+    destruct (seqb (k_key k0) x) eqn:E2.
     + injection Hf as <-. eexists. split; [reflexivity|].
       repeat split; simpl; auto. apply incl_appl, incl_refl.
     + eexists. split; [exact Hf | apply ext_refl].
   - destruct (add_req t p q) as [t'|] eqn:A; [|discriminate]. simpl in H. injection H as <-. simpl.
-    destruct (path_eqb (k_path k0) x) eqn:E2.
+    destruct (seqb (k_key k0) x) eqn:E2.
     + injection Hf as <-. eexists. split; [reflexivity | apply ext_refl].
     + eapply IH; eauto.
 Qed.
 
 Lemma add_req_new m p q m' :
   add_req m p q = Some m' ->
-  exists k', find_coll m' (q_path q) = Some k' /\ In q (k_reqs k') /\ same_group k' p q = true.
+  exists k', find_coll m' (q_key q) = Some k' /\ In q (k_reqs k') /\ same_group k' p q = true.
 Proof.
   revert m'; induction m as [|k0 t IH]; intros m' H; simpl in *.
-  - injection H as <-. simpl. rewrite path_eqb_refl. eexists. split; [reflexivity|]. simpl.
+  - injection H as <-. simpl. rewrite seqb_refl. eexists. split; [reflexivity|]. simpl.
     split; [now left|]. unfold same_group; simpl. now rewrite !seqb_refl.
-  - destruct (path_eqb (k_path k0) (q_path q)) eqn:E.
+  - destruct (seqb (k_key k0) (q_key q)) eqn:E.
     + destruct (same_group k0 p q) eqn:G; [|discriminate]. injection H as <-. simpl. rewrite E.
       eexists. split; [reflexivity|]. simpl. split; [apply in_or_app; right; now left | exact G].
     + destruct (add_req t p q) as [t'|] eqn:A; [|discriminate]. simpl in H. injection H as <-.
@@ -95,39 +95,42 @@ Qed.
 Lemma add_req_inv m p q m' :
   add_req m p q = Some m' ->
   forall x k', find_coll m' x = Some k' ->
-  (exists k, find_coll m x = Some k /\ k_pkg k' = k_pkg k) \/ (x = q_path q /\ k_pkg k' = p).
+  (exists k, find_coll m x = Some k /\ k_pkg k' = k_pkg k /\ k_path k' = k_path k) \/
+  (x = q_key q /\ k_pkg k' = p /\ k_path k' = q_path q).
 Proof.
   revert m'; induction m as [|k0 t IH]; intros m' H x k' Hf; simpl in *.
-  - injection H as <-. simpl in Hf. destruct (path_eqb (q_path q) x) eqn:E; [|discriminate].
-    injection Hf as <-. right. simpl. apply path_eqb_eq in E. auto.
-  - destruct (path_eqb (k_path k0) (q_path q)) eqn:E.
+  - injection H as <-. simpl in Hf. destruct (seqb (q_key q) x) eqn:E; [|discriminate].
+    injection Hf as <-. right. simpl. apply seqb_eq in E. auto.
+  - destruct (seqb (k_key k0) (q_key q)) eqn:E.
     + destruct (same_group k0 p q); [|discriminate]. injection H as <-. simpl in Hf.
-      destruct (path_eqb (k_path k0) x) eqn:E2.
-      * injection Hf as <-. left. eexists. split; [reflexivity|]. reflexivity.
+      destruct (seqb (k_key k0) x) eqn:E2.
+      * injection Hf as <-. left. eexists. split; [reflexivity|]. split; reflexivity.
       * left. eauto.
     + destruct (add_req t p q) as [t'|] eqn:A; [|discriminate]. simpl in H. injection H as <-.
-      simpl in Hf. destruct (path_eqb (k_path k0) x) eqn:E2.
+      simpl in Hf. destruct (seqb (k_key k0) x) eqn:E2.
       * injection Hf as <-. left. eauto.
       * eapply IH; eauto.
 Qed.
 
-(* every group comes from a selected request of its package *)
+(* every group comes from a selected request of its package: its key and its file *)
 Definition Sound (S : list (package * request)) (m : list coll) : Prop :=
-  forall x k, find_coll m x = Some k -> exists q, In (k_pkg k, q) S /\ q_path q = x.
-(* every processed request sits in the group of its path and agrees with it *)
+  forall x k, find_coll m x = Some k ->
+  exists q, In (k_pkg k, q) S /\ q_key q = x /\ q_path q = k_path k.
+(* every processed request sits in the group of its key and agrees with it *)
 Definition Complete (S : list (package * request)) (m : list coll) : Prop :=
   forall p q, In (p, q) S ->
-  exists k, find_coll m (q_path q) = Some k /\ In q (k_reqs k) /\ same_group k p q = true.
+  exists k, find_coll m (q_key q) = Some k /\ In q (k_reqs k) /\ same_group k p q = true.
 
 Lemma same_group_ext k k' p q : ext k k' -> same_group k' p q = same_group k p q.
-Proof. intros (_ & E1 & E2 & E3 & _). unfold same_group. now rewrite E1, E2, E3. Qed.
+Proof. intros (_ & _ & E1 & E2 & E3 & _). unfold same_group. now rewrite E1, E2, E3. Qed.
 
 Lemma add_req_sound S m p q m' :
   add_req m p q = Some m' -> In (p, q) S -> Sound S m -> Sound S m'.
 Proof.
-  intros A Hin Hs x k' Hf. destruct (add_req_inv _ _ _ _ A _ _ Hf) as [(k & Hk & E) | [-> E]].
-  - rewrite E. eauto.
-  - rewrite E. eauto.
+  intros A Hin Hs x k' Hf.
+  destruct (add_req_inv _ _ _ _ A _ _ Hf) as [(k & Hk & E & E') | (-> & E & E')].
+  - rewrite E, E'. eauto.
+  - rewrite E, E'. eauto.
 Qed.
 
 Lemma add_req_complete S m p q m' :
@@ -137,7 +140,7 @@ Proof.
   - destruct (Hc _ _ Hin) as (k & Hk & Hq & G).
     destruct (add_req_old _ _ _ _ A _ _ Hk) as (k' & Hk' & X).
     exists k'. split; [exact Hk'|]. split.
-    + destruct X as (_ & _ & _ & _ & I). now apply I.
+    + destruct X as (_ & _ & _ & _ & _ & I). now apply I.
     + now rewrite (same_group_ext _ _ _ _ X).
   - injection E as <- <-. now apply add_req_new with (m := m).
 Qed.
@@ -282,7 +285,7 @@ Lemma gen_step w f k r f' :
   gen_file w f k = (r, f') ->
   forall q,
     R (k_path k) f f' q \/
-    (q = k_path k /\ r = FOk /\ f' q = Some (File (w_content w q)) /\ written_ok w k /\
+    (q = k_path k /\ r = FOk /\ f' q = Some (File (w_content w (k_key k))) /\ written_ok w k /\
      (f q = None \/ ((exists c, f q = Some (File c)) /\ c_force (p_cfg (k_pkg k)) = true))).
 Proof.
   unfold gen_file. intros H q.
@@ -300,7 +303,7 @@ Proof.
   destruct ok2; simpl in H; [|injection H as _ <-; left; apply R12].
   destruct (exists_ f2 (k_path k) && negb (c_force (p_cfg (k_pkg k)))) eqn:EX;
     [injection H as _ <-; left; apply R12|].
-  destruct (write_file (w_ro w) f2 (k_path k) (w_content w (k_path k))) as [f3|] eqn:W;
+  destruct (write_file (w_ro w) f2 (k_path k) (w_content w (k_key k))) as [f3|] eqn:W;
     [|injection H as _ <-; left; apply R12].
   injection H as <- <-. apply write_file_spec in W. destruct W as [-> W].
   destruct (path_eqb q (k_path k)) eqn:Q.
@@ -313,26 +316,9 @@ Proof.
   - apply path_eqb_neq in Q. left. unfold R. rewrite upd_other by exact Q. apply R12.
 Qed.
 
-Lemma gen_ok_written w f k f' :
-  gen_file w f k = (FOk, f') -> f' (k_path k) = Some (File (w_content w (k_path k))).
-Proof.
-  intros H. destruct (gen_step _ _ _ _ _ H (k_path k)) as [X | (_ & _ & X & _)]; [|exact X].
-  (* the file was written: read it off the definition *)
-  unfold gen_file in H.
-  destruct (tstatus_ok (c_tstatus (p_cfg (k_pkg k)))); simpl in H; [|discriminate].
-  destruct (has_files (k_pkg k)); simpl in H; [|discriminate].
-  destruct (mkdir_all (w_ro w) f (parent (k_path k))) as [ok f1].
-  destruct ok; simpl in H; [|discriminate].
-  destruct (gomod_ok w f1 (parent (k_path k))); simpl in H; [|discriminate].
-  destruct (pure_failure w k); [discriminate|].
-  destruct (mkdir_all (w_ro w) f1 (parent (k_path k))) as [ok2 f2].
-  destruct ok2; simpl in H; [|discriminate].
-  destruct (exists_ f2 (k_path k) && negb (c_force (p_cfg (k_pkg k)))); [discriminate|].
-  destruct (write_file (w_ro w) f2 (k_path k) (w_content w (k_path k))) as [f3|] eqn:W; [|discriminate].
-  injection H as <-. apply write_file_spec in W. destruct W as [-> _]. apply upd_same.
-Qed.
-
-Lemma gen_ok_needs w f k f' : gen_file w f k = (FOk, f') -> written_ok w k /\ has_files (k_pkg k) = true.
+Lemma gen_ok_needs w f k f' :
+  gen_file w f k = (FOk, f') ->
+  written_ok w k /\ has_files (k_pkg k) = true /\ f' (k_path k) = Some (File (w_content w (k_key k))).
 Proof.
   unfold gen_file. intros H.
   destruct (tstatus_ok (c_tstatus (p_cfg (k_pkg k)))) eqn:T; simpl in H; [|discriminate].
@@ -340,7 +326,13 @@ Proof.
   destruct (mkdir_all (w_ro w) f (parent (k_path k))) as [ok f1].
   destruct ok; simpl in H; [|discriminate].
   destruct (gomod_ok w f1 (parent (k_path k))); simpl in H; [|discriminate].
-  destruct (pure_failure w k) eqn:PF; [discriminate|]. repeat split; auto.
+  destruct (pure_failure w k) eqn:PF; [discriminate|].
+  destruct (mkdir_all (w_ro w) f1 (parent (k_path k))) as [ok2 f2].
+  destruct ok2; simpl in H; [|discriminate].
+  destruct (exists_ f2 (k_path k) && negb (c_force (p_cfg (k_pkg k)))); [discriminate|].
+  destruct (write_file (w_ro w) f2 (k_path k) (w_content w (k_key k))) as [f3|] eqn:W; [|discriminate].
+  injection H as <-. apply write_file_spec in W. destruct W as [-> _].
+  split; [split; auto|]. split; [reflexivity | apply upd_same].
 Qed.
 
 Lemma gen_panic w f k f' : gen_file w f k = (FPanic, f') -> has_files (k_pkg k) = false.
@@ -355,7 +347,7 @@ Proof.
   destruct (mkdir_all (w_ro w) f1 (parent (k_path k))) as [ok2 f2].
   destruct ok2; simpl in H; [|discriminate].
   destruct (exists_ f2 (k_path k) && negb (c_force (p_cfg (k_pkg k)))); [discriminate|].
-  destruct (write_file (w_ro w) f2 (k_path k) (w_content w (k_path k))); discriminate.
+  destruct (write_file (w_ro w) f2 (k_path k) (w_content w (k_key k))); discriminate.
 Qed.
 
 (* an occupied path without force-file-write makes the file fail *)
@@ -383,9 +375,9 @@ Qed.
 Definition Inv (w : world) (m : list coll) (f0 f : fs) : Prop := forall q,
   f q = f0 q
   \/ (f0 q = None /\ f q = Some Dir /\
-      exists x k, find_coll m x = Some k /\ strict_prefix q x = true)
-  \/ (f q = Some (File (w_content w q)) /\
-      exists k, find_coll m q = Some k /\ written_ok w k /\
+      exists x k, find_coll m x = Some k /\ strict_prefix q (k_path k) = true)
+  \/ (exists x k, find_coll m x = Some k /\ k_path k = q /\
+        f q = Some (File (w_content w x)) /\ written_ok w k /\
         (f0 q = None \/ ((exists c, f0 q = Some (File c)) /\ c_force (p_cfg (k_pkg k)) = true))).
 
 Lemma Inv_refl w m f0 : Inv w m f0 f0.
@@ -394,16 +386,18 @@ Proof. intros q. now left. Qed.
 Lemma Inv_step w m f0 f k r f' x :
   find_coll m x = Some k -> Inv w m f0 f -> gen_file w f k = (r, f') -> Inv w m f0 f'.
 Proof.
-  intros Hk I G q. pose proof (find_coll_path _ _ _ Hk) as Px.
+  intros Hk I G q. pose proof (find_coll_key _ _ _ Hk) as Kx.
   destruct (gen_step _ _ _ _ _ G q) as [[E | (E1 & E2 & E3)] | (-> & _ & E2 & E3 & E4)].
   - rewrite E. apply I.
-  - destruct (I q) as [J | [(J1 & J2 & _) | (J1 & _)]]; try congruence.
-    right; left. rewrite <- J. split; [exact E1|]. split; [exact E2|]. exists x, k. split; [exact Hk | congruence].
-  - right; right. split; [exact E2|].
-    destruct (I (k_path k)) as [J | [(J1 & J2 & _) | (J1 & J2)]].
-    + exists k. split; [congruence|]. split; [exact E3|]. rewrite <- J. exact E4.
+  - destruct (I q) as [J | [(J1 & J2 & _) | (x' & k' & _ & _ & J & _)]]; try congruence.
+    right; left. rewrite <- J. split; [exact E1|]. split; [exact E2|]. exists x, k. auto.
+  - right; right. exists x, k. split; [exact Hk|]. split; [reflexivity|].
+    split; [now rewrite <- Kx|]. split; [exact E3|].
+    destruct (I (k_path k)) as [J | [(J1 & J2 & _) | (x' & k' & _ & _ & J1 & _ & J2)]].
+    + rewrite <- J. exact E4.
     + destruct E4 as [E4 | [[c E4] _]]; congruence.
-    + exact J2.
+    + destruct J2 as [J2 | [J2 _]]; [now left|]. right. split; [exact J2|].
+      destruct E4 as [E4 | [_ E4]]; [congruence | exact E4].
 Qed.
 
 Lemma loop_inv w m f0 : forall ord f r f',
@@ -417,30 +411,49 @@ Proof.
     destruct r1; [eapply IH; eauto | injection H as _ <-; exact I1 | injection H as _ <-; exact I1].
 Qed.
 
-(* once written, a file keeps its content for the rest of the loop *)
-Lemma loop_keeps w m : forall ord f r f' x,
-  write_loop w m ord f = (r, f') ->
-  f x = Some (File (w_content w x)) -> f' x = Some (File (w_content w x)).
+(* distinct keys of the map denote distinct files *)
+Definition inj (m : list coll) : Prop :=
+  forall x k x' k', find_coll m x = Some k -> find_coll m x' = Some k' -> k_path k = k_path k' -> x = x'.
+
+(* once written, a file keeps its content for the rest of the loop (no aliasing) *)
+Lemma loop_keeps w m : inj m -> forall ord f r f' x k,
+  find_coll m x = Some k -> write_loop w m ord f = (r, f') ->
+  f (k_path k) = Some (File (w_content w x)) -> f' (k_path k) = Some (File (w_content w x)).
 Proof.
-  induction ord as [|y t IH]; intros f r f' x H Hx; simpl in H.
+  intros IJ. induction ord as [|y t IH]; intros f r f' x k Hk H Hx; simpl in H.
   - now injection H as _ <-.
-  - destruct (find_coll m y) as [k|] eqn:Hk; [|eapply IH; eauto].
-    destruct (gen_file w f k) as [r1 f1] eqn:G.
-    assert (Hx1 : f1 x = Some (File (w_content w x))).
-    { destruct (gen_step _ _ _ _ _ G x) as [[E | (E1 & _)] | (_ & _ & E & _)]; congruence. }
+  - destruct (find_coll m y) as [k'|] eqn:Hk'; [|eapply IH; eauto].
+    destruct (gen_file w f k') as [r1 f1] eqn:G.
+    assert (Hx1 : f1 (k_path k) = Some (File (w_content w x))).
+    { destruct (gen_step _ _ _ _ _ G (k_path k)) as [[E | (E1 & _)] | (E0 & _ & E & _)]; try congruence.
+      rewrite E. rewrite (find_coll_key _ _ _ Hk'). now rewrite (IJ _ _ _ _ Hk Hk' E0). }
     destruct r1; [eapply IH; eauto | injection H as _ <-; exact Hx1 | injection H as _ <-; exact Hx1].
 Qed.
 
-Lemma loop_ok_written w m : forall ord f f' x k,
+Lemma loop_ok_visited w m : forall ord f f' x k,
   write_loop w m ord f = (FOk, f') -> In x ord -> find_coll m x = Some k ->
-  f' x = Some (File (w_content w x)) /\ written_ok w k /\ has_files (k_pkg k) = true.
+  written_ok w k /\ has_files (k_pkg k) = true.
 Proof.
   induction ord as [|y t IH]; intros f f' x k H Hin Hk; simpl in H; [destruct Hin|].
   destruct Hin as [->|Hin].
   - rewrite Hk in H. destruct (gen_file w f k) as [r1 f1] eqn:G.
     destruct r1; try (injection H; discriminate).
-    pose proof (gen_ok_written _ _ _ _ G) as Wr. rewrite (find_coll_path _ _ _ Hk) in Wr.
-    split; [eapply loop_keeps; eauto | eapply gen_ok_needs; eauto].
+    destruct (gen_ok_needs _ _ _ _ G) as (A & B & _). auto.
+  - destruct (find_coll m y) as [k'|] eqn:Hk'; [|eapply IH; eauto].
+    destruct (gen_file w f k') as [r1 f1] eqn:G.
+    destruct r1; try (injection H; discriminate). eapply IH; eauto.
+Qed.
+
+Lemma loop_ok_written w m : inj m -> forall ord f f' x k,
+  write_loop w m ord f = (FOk, f') -> In x ord -> find_coll m x = Some k ->
+  f' (k_path k) = Some (File (w_content w x)).
+Proof.
+  intros IJ. induction ord as [|y t IH]; intros f f' x k H Hin Hk; simpl in H; [destruct Hin|].
+  destruct Hin as [->|Hin].
+  - rewrite Hk in H. destruct (gen_file w f k) as [r1 f1] eqn:G.
+    destruct r1; try (injection H; discriminate).
+    destruct (gen_ok_needs _ _ _ _ G) as (_ & _ & Wr). rewrite (find_coll_key _ _ _ Hk) in Wr.
+    eapply loop_keeps; eauto.
   - destruct (find_coll m y) as [k'|] eqn:Hk'; [|eapply IH; eauto].
     destruct (gen_file w f k') as [r1 f1] eqn:G.
     destruct r1; try (injection H; discriminate). eapply IH; eauto.
@@ -489,11 +502,13 @@ Proof.
 Qed.
 
 Lemma sound_out w m x k :
-  grouped w m -> find_coll m x = Some k -> In x (out_paths w) /\ has_files (k_pkg k) = true /\ In (k_pkg k) (w_pkgs w).
+  grouped w m -> find_coll m x = Some k ->
+  In (k_path k) (out_paths w) /\ has_files (k_pkg k) = true /\ In (k_pkg k) (w_pkgs w) /\
+  exists q, In (k_pkg k, q) (selected_reqs w) /\ q_key q = x /\ q_path q = k_path k.
 Proof.
-  intros G Hk. destruct (g_sound _ _ G _ _ Hk) as (q & Hq & <-).
+  intros G Hk. destruct (g_sound _ _ G _ _ Hk) as (q & Hq & Ek & Ep).
   split; [unfold out_paths; apply in_map_iff; exists (k_pkg k, q); auto|].
-  apply selected_In in Hq. tauto.
+  pose proof (selected_In _ _ _ Hq) as (A & B & _). repeat split; auto. eauto.
 Qed.
 
 (* ---------- C09 ---------- *)
@@ -516,15 +531,29 @@ Proof.
   intros _. exists m, f1. auto 10.
 Qed.
 
-Theorem zero_complete w ord :
-  fst (run w ord) = Exit0 -> incl (out_paths w) ord ->
-  forall p q, In (p, q) (selected_reqs w) ->
-    snd (run w ord) (q_path q) = Some (File (w_content w (q_path q))).
+Lemma no_alias_inj w m : no_alias w -> grouped w m -> inj m.
 Proof.
-  intros E Hord p q Hin. destruct (exit0_inv _ _ E) as (m & f1 & Co & L & -> & _).
+  intros NA G x k x' k' Hk Hk' E.
+  destruct (sound_out _ _ _ _ G Hk) as (_ & _ & _ & q & Hq & <- & Pq).
+  destruct (sound_out _ _ _ _ G Hk') as (_ & _ & _ & q' & Hq' & <- & Pq').
+  apply (NA _ _ _ _ Hq Hq'). congruence.
+Qed.
+
+Theorem zero_complete w ord :
+  no_alias w ->
+  fst (run w ord) = Exit0 -> incl (out_keys w) ord ->
+  forall p q, In (p, q) (selected_reqs w) ->
+    snd (run w ord) (q_path q) = Some (File (w_content w (q_key q))).
+Proof.
+  intros NA E Hord p q Hin. destruct (exit0_inv _ _ E) as (m & f1 & Co & L & -> & _).
   pose proof (collections_grouped _ _ Co) as G.
   destruct (g_complete _ _ G _ _ Hin) as (k & Hk & _).
-  eapply loop_ok_written; eauto. apply Hord. unfold out_paths. apply in_map_iff. exists (p, q). auto.
+  destruct (sound_out _ _ _ _ G Hk) as (_ & _ & _ & q0 & Hq0 & Ek & Ep).
+  assert (EP : q_path q = k_path k).
+  { rewrite <- Ep. symmetry. apply (NA _ _ _ _ Hq0 Hin). exact Ek. }
+  rewrite EP. eapply loop_ok_written; eauto.
+  - eapply no_alias_inj; eauto.
+  - apply Hord. unfold out_keys. apply in_map_iff. exists (p, q). auto.
 Qed.
 
 (* two packages of the world with the same path are the same package *)
@@ -535,7 +564,7 @@ Proof. intros W. apply NoDup_map_inj_on. exact W. Qed.
 (* the group of a selected request, when files are keyed by package path *)
 Lemma group_of w m p q :
   wf_world w -> grouped w m -> In (p, q) (selected_reqs w) ->
-  exists k, find_coll m (q_path q) = Some k /\ In q (k_reqs k) /\ k_pkg k = p /\
+  exists k, find_coll m (q_key q) = Some k /\ In q (k_reqs k) /\ k_pkg k = p /\
             k_pkgname k = q_pkgname q /\ k_template k = q_template q.
 Proof.
   intros W G Hin. destruct (g_complete _ _ G _ _ Hin) as (k & Hk & Hq & S).
@@ -559,7 +588,7 @@ Qed.
 
 Theorem each_class w ord c :
   has_class w c ->
-  (needs_visit c = true -> wf_world w /\ incl (out_paths w) ord) ->
+  (needs_visit c = true -> wf_world w /\ incl (out_keys w) ord) ->
   fst (run w ord) = ExitErr.
 Proof.
   intros HC HV.
@@ -568,14 +597,14 @@ Proof.
   pose proof (collections_grouped _ _ Co) as G.
   (* for the classes decided in the loop: the file of the request is visited and succeeds *)
   assert (Vis : needs_visit c = true -> forall p q, In (p, q) (selected_reqs w) ->
-          exists k, In q (k_reqs k) /\ k_pkg k = p /\ k_path k = q_path q /\ written_ok w k).
+          exists k, In q (k_reqs k) /\ k_pkg k = p /\ k_key k = q_key q /\ written_ok w k).
   { intros NV p q Hin. destruct (HV NV) as [W Hord].
     destruct (group_of _ _ _ _ W G Hin) as (k & Hk & Hq & Ep & _).
-    assert (Ho : In (q_path q) ord).
-    { apply Hord. unfold out_paths. apply in_map_iff. exists (p, q). auto. }
-    destruct (loop_ok_written _ _ _ _ _ _ _ L Ho Hk) as (_ & WO & _).
+    assert (Ho : In (q_key q) ord).
+    { apply Hord. unfold out_keys. apply in_map_iff. exists (p, q). auto. }
+    destruct (loop_ok_visited _ _ _ _ _ _ _ L Ho Hk) as (WO & _).
     exists k. split; [exact Hq|]. split; [exact Ep|].
-    split; [eapply find_coll_path; eauto | exact WO]. }
+    split; [eapply find_coll_key; eauto | exact WO]. }
   destruct c; simpl in HC.
   - (* ListedMissing *) destruct HC as (p & n & Hp & Hn & Hf).
     unfold missing in Mi. rewrite <- not_true_iff_false in Mi. apply Mi.
@@ -665,119 +694,154 @@ Theorem frame w ord q :
 Proof.
   intros H. destruct (run_Inv w ord) as [-> | (m & Co & I)]; [reflexivity|].
   pose proof (collections_grouped _ _ Co) as G.
-  destruct (I q) as [E | [(_ & _ & x & k & Hk & P) | (_ & k & Hk & _)]]; [exact E | exfalso | exfalso].
+  destruct (I q) as [E | [(_ & _ & x & k & Hk & P) | (x & k & Hk & Ek & _)]]; [exact E | exfalso | exfalso].
   - destruct (sound_out _ _ _ _ G Hk) as [Hx _]. apply strict_prefix_is_prefix in P.
     rewrite (H _ Hx) in P. discriminate.
-  - destruct (sound_out _ _ _ _ G Hk) as [Hx _]. specialize (H _ Hx).
+  - destruct (sound_out _ _ _ _ G Hk) as [Hx _]. rewrite Ek in Hx. specialize (H _ Hx).
     assert (is_prefix q q = true) by (apply is_prefix_spec; exists []; now rewrite app_nil_r). congruence.
 Qed.
 
 Theorem all_or_nothing w ord q :
   snd (run w ord) q = w_fs w q
-  \/ snd (run w ord) q = Some (File (w_content w q))
+  \/ (exists p r, In (p, r) (selected_reqs w) /\ q_path r = q /\
+                  snd (run w ord) q = Some (File (w_content w (q_key r))))
   \/ (w_fs w q = None /\ snd (run w ord) q = Some Dir /\
       exists x, In x (out_paths w) /\ strict_prefix q x = true).
 Proof.
   destruct (run_Inv w ord) as [-> | (m & Co & I)]; [now left|].
   pose proof (collections_grouped _ _ Co) as G.
-  destruct (I q) as [E | [(E1 & E2 & x & k & Hk & P) | (E & _)]]; [now left | | right; now left].
-  right; right. repeat split; auto. exists x. split; [|exact P]. eapply sound_out; eauto.
+  destruct (I q) as [E | [(E1 & E2 & x & k & Hk & P) | (x & k & Hk & Ek & E & _)]]; [now left | | ].
+  - right; right. repeat split; auto. exists (k_path k). split; [|exact P]. eapply sound_out; eauto.
+  - right; left. destruct (sound_out _ _ _ _ G Hk) as (_ & _ & _ & r & Hr & Kr & Pr).
+    exists (k_pkg k), r. split; [exact Hr|]. split; [congruence|]. now rewrite Kr.
 Qed.
 
 Theorem no_clobber w ord q n :
   w_fs w q = Some n -> snd (run w ord) q <> Some n ->
-  (exists c, n = File c) /\ force_of w q = Some true /\
-  snd (run w ord) q = Some (File (w_content w q)).
+  (exists c, n = File c) /\
+  exists x, key_path w x = Some q /\ force_of w x = Some true /\
+            snd (run w ord) q = Some (File (w_content w x)).
 Proof.
   intros Hn Hc. destruct (run_Inv w ord) as [E | (m & Co & I)]; [congruence|].
-  destruct (I q) as [E | [(E1 & _) | (E & k & Hk & _ & [F | [[c F] Fo]])]]; try congruence.
-  split; [exists c; congruence|]. split; [|exact E].
-  unfold force_of, file_pkg. rewrite Co, Hk. simpl. now rewrite Fo.
+  destruct (I q) as [E | [(E1 & _) | (x & k & Hk & Ek & E & _ & [F | [[c F] Fo]])]]; try congruence.
+  split; [exists c; congruence|]. exists x.
+  unfold key_path, force_of, file_pkg. rewrite Co, Hk. simpl. rewrite Fo, Ek. auto.
 Qed.
 
-Lemma loop_noforce w m f0 : forall ord f r f' x k n,
-  Inv w m f0 f -> f0 x = Some n -> find_coll m x = Some k -> c_force (p_cfg (k_pkg k)) = false ->
+Lemma loop_noforce w m f0 q n :
+  f0 q = Some n ->
+  (forall x k, find_coll m x = Some k -> k_path k = q -> c_force (p_cfg (k_pkg k)) = false) ->
+  forall ord f r f' x k,
+  Inv w m f0 f -> find_coll m x = Some k -> k_path k = q ->
   In x ord -> write_loop w m ord f = (r, f') -> r <> FOk.
 Proof.
-  induction ord as [|y t IH]; intros f r f' x k n I H0 Hk Hf Hin H; simpl in H; [destruct Hin|].
-  assert (Fx : f x = Some n).
-  { destruct (I x) as [E | [(E1 & _) | (_ & k' & Hk' & _ & [F | [_ Fo]])]]; try congruence. }
+  intros H0 NF. induction ord as [|y t IH]; intros f r f' x k I Hk Ek Hin H; simpl in H; [destruct Hin|].
+  assert (Fx : f q = Some n).
+  { destruct (I q) as [E | [(E1 & _) | (x' & k' & Hk' & Ek' & _ & _ & [F | [_ Fo]])]]; try congruence.
+    rewrite (NF _ _ Hk' Ek') in Fo. discriminate. }
   destruct Hin as [->|Hin].
   - rewrite Hk in H. destruct (gen_file w f k) as [r1 f1] eqn:G.
-    rewrite <- (find_coll_path _ _ _ Hk) in Fx.
-    pose proof (gen_exists_noforce _ _ _ _ _ _ Fx Hf G) as N.
+    rewrite <- Ek in Fx.
+    pose proof (gen_exists_noforce _ _ _ _ _ _ Fx (NF _ _ Hk Ek) G) as N.
     destruct r1; [congruence | injection H as <- _; discriminate | injection H as <- _; discriminate].
-  - destruct (find_coll m y) as [k'|] eqn:Hk'; [|eapply IH; eauto].
+  - destruct (find_coll m y) as [k'|] eqn:Hk'; [|exact (IH _ _ _ _ _ I Hk Ek Hin H)].
     destruct (gen_file w f k') as [r1 f1] eqn:G.
     pose proof (Inv_step _ _ _ _ _ _ _ _ Hk' I G) as I1.
-    destruct r1; [eapply IH; eauto | injection H as <- _; discriminate | injection H as <- _; discriminate].
+    destruct r1; [exact (IH _ _ _ _ _ I1 Hk Ek Hin H) | injection H as <- _; discriminate | injection H as <- _; discriminate].
 Qed.
 
-Theorem no_clobber_fails w ord q n :
-  w_fs w q = Some n -> force_of w q = Some false -> In q ord ->
+Theorem no_clobber_fails w ord q n x :
+  w_fs w q = Some n -> key_path w x = Some q -> In x ord ->
+  (forall y, key_path w y = Some q -> force_of w y = Some false) ->
   fst (run w ord) = ExitErr /\ snd (run w ord) q = Some n.
 Proof.
-  intros Hn Hf Hin. unfold force_of, file_pkg in Hf.
+  intros Hn Kp Hin NF. unfold key_path in Kp.
   destruct (collections w) as [m|] eqn:Co; [|discriminate].
-  destruct (find_coll m q) as [k|] eqn:Hk; [|discriminate]. simpl in Hf. injection Hf as Hf.
+  destruct (find_coll m x) as [k|] eqn:Hk; [|discriminate]. simpl in Kp. injection Kp as Ek.
+  assert (NF' : forall y k', find_coll m y = Some k' -> k_path k' = q -> c_force (p_cfg (k_pkg k')) = false).
+  { intros y k' Hy Ey. specialize (NF y). unfold key_path, force_of, file_pkg in NF.
+    rewrite Co, Hy in NF. simpl in NF. rewrite Ey in NF. specialize (NF eq_refl). now injection NF. }
   destruct (run_cases w ord) as [H | (m' & r & f1 & Co' & L & _ & _ & _ & H)]; rewrite H; simpl; [auto|].
   rewrite Co in Co'. injection Co' as <-.
-  pose proof (loop_noforce _ _ _ _ _ _ _ _ _ _ (Inv_refl w m (w_fs w)) Hn Hk Hf Hin L) as N.
+  pose proof (loop_noforce _ _ _ _ _ Hn NF' _ _ _ _ _ _ (Inv_refl w m (w_fs w)) Hk Ek Hin L) as N.
   pose proof (loop_inv _ _ _ _ _ _ _ (Inv_refl w m (w_fs w)) L) as I.
   split.
   - destruct r; simpl; [congruence | reflexivity |].
     exfalso. apply (no_panic w ord). rewrite H. reflexivity.
-  - destruct (I q) as [E | [(E1 & _) | (_ & k' & Hk' & _ & [F | [_ Fo]])]]; try congruence.
+  - destruct (I q) as [E | [(E1 & _) | (x' & k' & Hk' & Ek' & _ & _ & [F | [_ Fo]])]]; try congruence.
+    rewrite (NF' _ _ Hk' Ek') in Fo. discriminate.
 Qed.
 
 Theorem dir_occupied w ord q : w_fs w q = Some Dir -> snd (run w ord) q = Some Dir.
 Proof.
   intros H. destruct (run_Inv w ord) as [-> | (m & Co & I)]; [exact H|].
-  destruct (I q) as [E | [(E1 & _) | (_ & k & _ & _ & [F | [[c F] _]])]]; congruence.
+  destruct (I q) as [E | [(E1 & _) | (x & k & _ & _ & _ & _ & [F | [[c F] _]])]]; congruence.
 Qed.
 
-Theorem stage_failure_keeps w ord x :
-  stage_fails w x ->
-  snd (run w ord) x = w_fs w x
-  \/ (w_fs w x = None /\ snd (run w ord) x = Some Dir /\
-      exists y, In y (out_paths w) /\ strict_prefix x y = true).
+Theorem stage_failure_keeps w ord x q :
+  stage_fails w x q ->
+  snd (run w ord) q = w_fs w q
+  \/ (w_fs w q = None /\ snd (run w ord) q = Some Dir /\
+      exists y, In y (out_paths w) /\ strict_prefix q y = true)
+  \/ (exists x', x' <> x /\ key_path w x' = Some q /\ snd (run w ord) q = Some (File (w_content w x'))).
 Proof.
-  intros (m & k & Co & Hk & NW).
+  intros (m & k & Co & Hk & Ek & NW).
   destruct (run_Inv w ord) as [-> | (m' & Co' & I)]; [now left|].
   rewrite Co in Co'. injection Co' as <-.
   pose proof (collections_grouped _ _ Co) as G.
-  destruct (I x) as [E | [(E1 & E2 & y & k' & Hk' & P) | (_ & k' & Hk' & W & _)]]; [now left | | ].
-  - right. repeat split; auto. exists y. split; [|exact P]. eapply sound_out; eauto.
-  - rewrite Hk in Hk'. injection Hk' as <-. contradiction.
+  destruct (I q) as [E | [(E1 & E2 & y & k' & Hk' & P) | (x' & k' & Hk' & Ek' & E & W & _)]]; [now left | | ].
+  - right; left. repeat split; auto. exists (k_path k'). split; [|exact P]. eapply sound_out; eauto.
+  - right; right. exists x'. split.
+    + intros ->. rewrite Hk in Hk'. injection Hk' as <-. contradiction.
+    + unfold key_path. rewrite Co, Hk'. simpl. rewrite Ek'. auto.
 Qed.
 
 (* with outputs that are not nested, an output path is either untouched or complete *)
-Corollary output_old_or_new w ord x :
-  no_nested w -> In x (out_paths w) ->
-  snd (run w ord) x = w_fs w x \/ snd (run w ord) x = Some (File (w_content w x)).
+Corollary output_old_or_new w ord q :
+  no_nested w -> In q (out_paths w) ->
+  snd (run w ord) q = w_fs w q \/
+  exists p r, In (p, r) (selected_reqs w) /\ q_path r = q /\
+              snd (run w ord) q = Some (File (w_content w (q_key r))).
 Proof.
-  intros NN Hx. destruct (all_or_nothing w ord x) as [E | [E | (_ & _ & y & Hy & P)]]; auto.
+  intros NN Hx. destruct (all_or_nothing w ord q) as [E | [E | (_ & _ & y & Hy & P)]]; auto.
   rewrite (NN _ _ Hx Hy) in P. discriminate.
 Qed.
 
-Corollary stage_failure_keeps_output w ord x :
-  no_nested w -> In x (out_paths w) -> stage_fails w x -> snd (run w ord) x = w_fs w x.
+Lemma key_path_sound w x q :
+  key_path w x = Some q -> exists p r, In (p, r) (selected_reqs w) /\ q_key r = x /\ q_path r = q.
 Proof.
-  intros NN Hx SF. destruct (stage_failure_keeps w ord x SF) as [E | (_ & _ & y & Hy & P)]; auto.
-  rewrite (NN _ _ Hx Hy) in P. discriminate.
+  unfold key_path. destruct (collections w) as [m|] eqn:Co; [|discriminate].
+  destruct (find_coll m x) as [k|] eqn:Hk; [|discriminate]. simpl. intros E. injection E as <-.
+  destruct (sound_out _ _ _ _ (collections_grouped _ _ Co) Hk) as (_ & _ & _ & r & Hr & Kr & Pr).
+  eauto.
+Qed.
+
+Corollary stage_failure_keeps_output w ord x q :
+  no_nested w -> no_alias w -> stage_fails w x q -> snd (run w ord) q = w_fs w q.
+Proof.
+  intros NN NA SF.
+  assert (Hq : exists p r, In (p, r) (selected_reqs w) /\ q_key r = x /\ q_path r = q).
+  { destruct SF as (m & k & Co & Hk & Ek & _). apply key_path_sound.
+    unfold key_path. rewrite Co, Hk. simpl. now rewrite Ek. }
+  destruct Hq as (p & r & Hr & Kr & Pr).
+  destruct (stage_failure_keeps w ord x q SF) as [E | [(_ & _ & y & Hy & P) | (x' & N & Kp & _)]]; auto.
+  - assert (Hx : In q (out_paths w)) by (unfold out_paths; apply in_map_iff; exists (p, r); auto).
+    rewrite (NN _ _ Hx Hy) in P. discriminate.
+  - exfalso. apply N. destruct (key_path_sound _ _ _ Kp) as (p' & r' & Hr' & Kr' & Pr').
+    rewrite <- Kr, <- Kr'. apply (NA _ _ _ _ Hr' Hr). congruence.
 Qed.
 
 (* what force_of talks about *)
 Lemma file_pkg_sound w x p :
-  file_pkg w x = Some p -> exists q, In (p, q) (selected_reqs w) /\ q_path q = x.
+  file_pkg w x = Some p -> exists q, In (p, q) (selected_reqs w) /\ q_key q = x.
 Proof.
   unfold file_pkg. destruct (collections w) as [m|] eqn:Co; [|discriminate].
   destruct (find_coll m x) as [k|] eqn:Hk; [|discriminate]. simpl. intros E. injection E as <-.
-  exact (g_sound _ _ (collections_grouped _ _ Co) _ _ Hk).
+  destruct (g_sound _ _ (collections_grouped _ _ Co) _ _ Hk) as (q & Hq & Kq & _). eauto.
 Qed.
 
 Lemma file_pkg_complete w m p q :
-  wf_world w -> collections w = Some m -> In (p, q) (selected_reqs w) -> file_pkg w (q_path q) = Some p.
+  wf_world w -> collections w = Some m -> In (p, q) (selected_reqs w) -> file_pkg w (q_key q) = Some p.
 Proof.
   intros W Co Hin. destruct (group_of _ _ _ _ W (collections_grouped _ _ Co) Hin) as (k & Hk & _ & <- & _).
   unfold file_pkg. now rewrite Co, Hk.
